@@ -409,6 +409,57 @@ def penetration(A, B, nsample=3000, refine=6):
     return {"depth": best, "n": nb, "exact": False}
 
 
+def penetration_certified(A, B, hints=(), eps=1e-9, itmax=600, nstart=48):
+    """certified two-sided bracket of the penetration depth of two INTERSECTING convex shapes.
+
+    depth = min over unit n of w(n) = h_M(n), M = A - B (Minkowski difference, contains the origin).
+      upper: w(n) for any n is an upper bound (the smallest value met is kept, `n` realises it);
+      lower: the convex hull P of support points of M is inside M, so the distance from the origin to the boundary of P (smallest
+             facet offset of P, facets from qhull) is a lower bound of the depth.
+    The polytope is refined with the support point along the normal of its nearest facet (the expanding-polytope iteration, but with
+    an exact convex hull at every step instead of a horizon heuristic) until upper - lower <= eps.
+    returns dict(lower, upper, n, iters, certified)"""
+    from scipy.spatial import ConvexHull, QhullError
+    sup = lambda n: A.support(n) - B.support(-n)
+    D = [d for d in fib_sphere(nstart)] + [np.eye(3)[i] * sg for i in range(3) for sg in (1.0, -1.0)]
+    for h in hints:
+        h = np.asarray(h, dtype=float)
+        nh = float(np.linalg.norm(h))
+        if nh > 0 and np.isfinite(h).all():
+            D += [h / nh, -h / nh]
+    D = np.array(D)
+    w = width_many(A, B, D)
+    i = int(np.argmin(w))
+    upper, nbest = float(w[i]), D[i]
+    pts = np.array([sup(d) for d in D])
+    lower, it, ok = 0.0, 0, False
+    try:
+        hull = ConvexHull(pts, incremental=True)
+        for it in range(itmax):
+            eq = hull.equations
+            off = -eq[:, 3]                        # distance of the origin from each facet plane (negative: origin outside)
+            j = int(np.argmin(off))
+            lower = max(float(off[j]), 0.0)
+            n = eq[j, :3]
+            wn = width(A, B, n)
+            if wn < upper:
+                upper, nbest = float(wn), n.copy()
+            if upper - lower <= eps:
+                ok = True
+                break
+            p = sup(n)
+            if float(n @ p) - float(off[j]) <= 1e-15 * (1 + abs(float(off[j]))):
+                # the support point is already on this facet: w(n) equals the facet offset, hence depth = lower exactly
+                upper, nbest = min(upper, float(wn)), (n.copy() if wn <= upper else nbest)
+                ok = upper - lower <= eps
+                break
+            hull.add_points(p[None, :])
+        hull.close()
+    except (QhullError, ValueError):
+        ok = False
+    return {"lower": lower, "upper": upper, "n": nbest, "iters": it, "certified": bool(ok and upper - lower <= eps)}
+
+
 def signed_distance(A, B):
     """dict(dist_upper, dist_lower, n, exact, x, y): bracket of the signed distance (negative = -penetration depth).
 
@@ -476,6 +527,12 @@ def self_test(seed=0, n=60):
             p = penetration(A, B)
             w = width_many(A, B, fib_sphere(20000)).min()
             out["pen_exact_vs_sampled"] = max(out["pen_exact_vs_sampled"], p["depth"] - w)   # reference never worse than sampling
+            # certified bracket: must close, must contain the exact depth of polytope pairs, its lower bound never exceeds any width
+            cb = penetration_certified(A, B, eps=1e-7 * (A.extent() + B.extent()))
+            viol = max(cb["lower"] - w, 0.0) + (0.0 if cb["certified"] else 1.0)
+            if p["exact"]:
+                viol += max(cb["lower"] - p["depth"], p["depth"] - cb["upper"], 0.0)
+            out["pen_certified_bracket"] = max(out.get("pen_certified_bracket", 0.0), viol)
             if p["exact"]:      # ... and the sampled-and-refined search (forced) agrees with the exact candidate enumeration
                 A2, B2 = A, B
                 f = lambda x: width(A2, B2, _unit(x))
